@@ -576,10 +576,6 @@ func (sd *SpecAnalyser) CompareProps(type1, type2 *spec.SchemaProps) []TypeDiff 
 
 	diffs = CheckStringTypeChanges(diffs, type1, type2)
 
-	if len(diffs) > 0 {
-		return diffs
-	}
-
 	diffs = checkNumericTypeChanges(diffs, type1, type2)
 
 	if len(diffs) > 0 {
